@@ -70,6 +70,7 @@ func c05Vars() map[string]mj.Recipe {
 		"rg":    {T: "ranger", Ss: []string{"r0", "r1"}},
 		"rp":    {T: "ranger-plain", Ss: []string{"s0", "", "s2"}},
 		"stk":   {T: "stack-ranger", Ss: []string{"bottom", "middle", "top"}},
+		"ih":    {T: "iface-holder"},
 		"nrg":   {T: "nilok-ranger"},
 		"okrg":  {T: "nilok-ranger", Ss: []string{"n0", "n1"}},
 		"e_xs":  mj.RInts(),
@@ -351,6 +352,30 @@ func (g *c05Gen) stmts(depth int, scope []string) []*mj.Node {
 				g.labels["ints-value-ranged-twice"] = true
 				continue
 			}
+			if !g.inMulti && g.n(0, 9, "heteroSubject") == 0 {
+				// one range statement that meets rangers of different kinds, one after the other: what the single variable
+				// holds (index or element) is decided by the value ranged over this time
+				id := g.nextTag("h")
+				x := "x" + id
+				decl := g.n(0, 1, "heteroDecl") == 0
+				inner := &mj.Node{K: "range", E: mj.Dot(), Names: []string{x}, Decl: decl, Body: []*mj.Node{mj.Text("("), mj.Print(mj.Var(x)), mj.Text(")")}, HasElse: true, Else: []*mj.Node{mj.Text("(none)")}}
+				if !decl {
+					out = append(out, mj.Let(x, mj.Str("before")))
+				}
+				hv := "hetero" + id
+				g.p.Vars[hv] = mj.Recipe{T: "hetero", I: int64(g.n(0, 4, "heteroRotation"))}
+				out = append(out, &mj.Node{K: "range", E: mj.Var(hv), Body: []*mj.Node{inner, mj.Text("|")}})
+				g.labels["one-range-statement-over-rangers-of-different-kinds"] = true
+				continue
+			}
+			if g.n(0, 11, "ifaceHeldSubject") == 0 {
+				// collections in a slot of an interface type that has methods, and behind a pointer to an interface
+				id := g.nextTag("q")
+				field := []string{"Sorted", "PAny", "Counts", "Empty"}[g.n(0, 3, "ifaceHeldField")]
+				out = append(out, &mj.Node{K: "range", E: mj.Chain(mj.Var("ih"), field), Names: []string{"k" + id, "v" + id}, Decl: true, Body: []*mj.Node{mj.Text("["), mj.Print(mj.Var("k" + id)), mj.Text("="), mj.Print(mj.Var("v" + id)), mj.Text("]")}, HasElse: true, Else: []*mj.Node{mj.Text("(none)")}})
+				g.labels["range-over-a-collection-held-in-an-interface-with-methods:"+field] = true
+				continue
+			}
 			if g.n(0, 11, "ifuncSubject") == 0 {
 				// a rangeable value handed back by a function declared to return interface{}
 				f := []string{"fz8", "fz9"}[g.n(0, 1, "ifuncRange")]
@@ -535,7 +560,7 @@ func judgeC05(c c05Case) (v core.Verdict) {
 
 func TestC05(t *testing.T) {
 	core.Run(t, "C05",
-		"nested if/else-if/else chains (1-4 arms, optional ':=' header whose variable later links and the final else read) and ranges (depth<=3; zero/one/two variables; ':=' and '=') over typed and interface slices, arrays, pointers, maps (string/int keys; multi-entry maps compared as multisets of per-entry renderings), closed channels (also receive-only), slices and arrays of more than 256 elements, ints(a,b) (also one value ranged twice: a cursor), maps with a NaN key, rangeables and conditions handed back by functions declared to return interface{}, index-providing and index-less custom Rangers, empty/nil variants and non-rangeables; conditions over bool/int/uint/float kinds at 0 and non-0, strings, nil, nil and non-nil pointers/maps/slices, structs, and over loop bindings in every form; also: a custom Ranger whose pointer receiver tolerates nil, as a typed nil pointer and with elements; oracle = MiniJet reference interpreter (the engine runs under a one-minute watchdog: a loop that never ends is a violation); non-trivial = nested range, or a range/if with an else branch",
+		"nested if/else-if/else chains (1-4 arms, optional ':=' header whose variable later links and the final else read) and ranges (depth<=3; zero/one/two variables; ':=' and '=') over typed and interface slices, arrays, pointers, maps (string/int keys; multi-entry maps compared as multisets of per-entry renderings), closed channels (also receive-only), slices and arrays of more than 256 elements, ints(a,b) (also one value ranged twice: a cursor), maps with a NaN key, rangeables and conditions handed back by functions declared to return interface{}, index-providing and index-less custom Rangers, empty/nil variants and non-rangeables; conditions over bool/int/uint/float kinds at 0 and non-0, strings, nil, nil and non-nil pointers/maps/slices, structs, and over loop bindings in every form; also: a custom Ranger whose pointer receiver tolerates nil, as a typed nil pointer and with elements; round 10: one range statement that meets rangers of different kinds one after the other (a list holding a slice, channels, custom Rangers, a map, an array); collections in slots of interface types that have methods (sort.Interface, fmt.Stringer) and behind *interface{}; oracle = MiniJet reference interpreter (the engine runs under a one-minute watchdog: a loop that never ends is a violation); non-trivial = nested range, or a range/if with an else branch",
 		genC05, judgeC05)
 }
 
